@@ -699,6 +699,14 @@ func (c *expiringContext) Deadline() (time.Time, bool) { return time.Time{}, fal
 
 // ---- driver -----------------------------------------------------------------------------------------
 
+// tlEnough: once a few violations are recorded there is no point in running the remaining
+// scenarios (each failing scenario may sit in a watchdog for seconds).
+func tlEnough(s *Stream) bool {
+	s.mu.Lock()
+	defer s.mu.Unlock()
+	return len(s.Violations) >= 3
+}
+
 func runTL(cfg Cfg, name string) {
 	s := NewStream(cfg.Out, name)
 	defer s.Close()
@@ -708,16 +716,25 @@ func runTL(cfg Cfg, name string) {
 	case "tl_exact":
 		s.Rule = "random stress: lanes 1..4 x queue 0..3, 3 producers pushing to arbitrary lanes with timeouts from 0, random task durations, panicking tasks, with and without cancellation after a random number of pushes; oracle: every accepted task started exactly once when the context stays live, no rejected task started, never twice; non-trivial = a run in which at least one task was accepted (distinct by configuration and outcome counts)"
 		for i := 0; i < cfg.N(120, 1500); i++ {
+			if tlEnough(s) {
+				break
+			}
 			tlStress(s, rng.Fork(), i%2 == 1, false)
 		}
 	case "tl_status":
 		s.Rule = "stress with many panicking tasks of different dynamic types and a concurrent Status() poller (bounds, LastPanic membership); stable states with all workers pinned and k tasks queued compared exactly; non-trivial = distinct (L,Q,k) stable states and distinct stress outcomes"
 		for i := 0; i < cfg.N(60, 600); i++ {
+			if tlEnough(s) {
+				break
+			}
 			tlStress(s, rng.Fork(), i%3 == 2, true)
 		}
 		for rep := 0; rep < cfg.N(2, 10); rep++ {
 			for L := 1; L <= maxL; L++ {
 				for Q := 0; Q <= maxQ; Q++ {
+					if tlEnough(s) {
+						break
+					}
 					tlExactPending(s, rng.Fork(), L, Q)
 				}
 			}
@@ -728,12 +745,18 @@ func runTL(cfg Cfg, name string) {
 			for L := 2; L <= maxL+1 && L <= 4; L++ {
 				for Q := 0; Q <= maxQ; Q++ {
 					for b := 1; b < L; b++ {
+						if tlEnough(s) {
+							break
+						}
 						tlPinned(s, rng.Fork(), L, Q, b)
 					}
 				}
 			}
 		}
 		for i := 0; i < cfg.N(40, 400); i++ {
+			if tlEnough(s) {
+				break
+			}
 			tlStress(s, rng.Fork(), false, false)
 		}
 	case "tl_cancel":
@@ -747,6 +770,9 @@ func runTL(cfg Cfg, name string) {
 							if !cfg.Thorough() && (L+Q+len(pt)+len(b)+rep)%2 == 1 {
 								continue // quick tier: half of the matrix, alternating with the seed-independent parity
 							}
+							if tlEnough(s) {
+								break
+							}
 							tlCancelAt(s, rng.Fork(), L, Q, pt, b, kinds[(L+Q+len(pt)+len(b)+rep)/2%2])
 						}
 					}
@@ -754,6 +780,9 @@ func runTL(cfg Cfg, name string) {
 			}
 		}
 		for i := 0; i < cfg.N(40, 400); i++ {
+			if tlEnough(s) {
+				break
+			}
 			tlStress(s, rng.Fork(), true, false)
 		}
 	}
